@@ -3,7 +3,9 @@ CONSTANTS
   Lens = {3, 5}
   H = 3
   Preface = 0
+  Peek = 0
+  MaxTimeouts = 0
   Defects = {"DrainHeader"}
 SPECIFICATION Spec
-INVARIANTS InOrderOnce NoEarly Prompt Consumed PrefaceOnce NoError SameForEveryCut
+INVARIANTS InOrderOnce NoEarly Prompt Consumed PrefaceOnce NoError NoByteLost SameForEveryCut
 CHECK_DEADLOCK FALSE
